@@ -103,7 +103,8 @@ def handler(case):
         for s in syms:
             if s.name() not in pt:
                 return {"unknown_symbol": s.name()}
-            args.append(pt[s.name()])
+            v = pt[s.name()]
+            args.append(ca.DM(np.array(v, dtype=float)) if isinstance(v, list) else v)
         f = ca.Function("f", syms, [vec])
         out = f(*args) if args else f()
         if isinstance(out, dict):
@@ -181,6 +182,21 @@ def handler(case):
     post["ieqvals_sol"] = eval_at(model.initial_equations, proj)
     post["eqvals"] = [eval_at(model.equations, p) for p in case["points"]]
     post["ieqvals"] = [eval_at(model.initial_equations, p) for p in case["points"]]
+    # recorded values of the remaining parameters / constants, evaluated (they may be expressions)
+    rec = []
+    for v in list(model.parameters) + list(model.constants):
+        try:
+            x = v.value
+            if isinstance(x, (list, tuple)) or (hasattr(x, "shape") and tuple(getattr(x, "shape", ())) not in ((), (1,), (1, 1))):
+                continue
+            if isinstance(x, ca.MX):
+                r = eval_at([x], pt)
+                rec.append([v.symbol.name(), r[0] if isinstance(r, list) and r else None])
+            else:
+                rec.append([v.symbol.name(), ratio(x)])
+        except Exception:  # noqa
+            rec.append([v.symbol.name(), None])
+    post["recorded_values"] = rec
     post["dae_residual"] = residual(model, "dae_residual_function", pt)
     post["initial_residual"] = residual(model, "initial_residual_function", pt)
     try:
